@@ -326,7 +326,7 @@ def _subst_calls(e, val):
     return out
 
 
-def trace_calls(P, fn, env0, max_steps=20000, _depth=0, assume_calls=None, partial=False, _retbox=None, sym_out=None, on_store=None):
+def trace_calls(P, fn, env0, max_steps=20000, _depth=0, assume_calls=None, partial=False, _retbox=None, sym_out=None, on_store=None, on_event=None, no_inline=()):
     """Finite-domain evaluation of the control skeleton of fn for ONE element of
     the finite input domain (env0 binds the enumerated parameters, e.g. a
     concrete length and address): values that cannot be evaluated become
@@ -387,6 +387,8 @@ def trace_calls(P, fn, env0, max_steps=20000, _depth=0, assume_calls=None, parti
     while True:
         for ev in b.events:
             steps += 1
+            if on_event is not None:
+                on_event(ev, env, sym)
             if steps > max_steps:
                 if partial:
                     return out          # the caller only needs a prefix of the call sequence
@@ -444,7 +446,7 @@ def trace_calls(P, fn, env0, max_steps=20000, _depth=0, assume_calls=None, parti
                                 sym[name] = rv_
             elif ev.k == 'call':
                 g = P.functions.get(ev.callee) if P is not None else None
-                if g is not None and g.file == fn.file and g is not fn and _depth < 3:
+                if g is not None and g.file == fn.file and g is not fn and _depth < 3 and g.name not in no_inline:
                     # a helper of the same unit: evaluate its skeleton in place (its result stays unknown)
                     sub_env = {}
                     for i_, a in enumerate(ev.args):
